@@ -240,6 +240,15 @@ def txt_case(draw) -> Dict[str, Any]:
     return {'kind': 'txt', 'items': items}
 
 
+
+def FLAKY_IS_VIOLATION(case: Any) -> bool:
+    """This check is a pure function of the case (no clock, no threads, no randomness outside the case): when a violation is
+    observed and the very same case passes on Hypothesis' re-run, the library has carried state from an earlier case into
+    this one (a process-wide memo, a shared container) - on a correct tree the objects of one case cannot affect the next.
+    What was seen stands."""
+    return True
+
+
 def strategy(tier: str):
     return st.one_of(name_case(), name_case(), name_case(), random_name_case(), bare_local_case(), txt_case(), txt_case())
 
@@ -350,6 +359,20 @@ def check_txt(case: Dict[str, Any]) -> Dict[str, Any]:
     if got1 != want_read:
         raise Violation('.properties of the constructed object differs from the input', {'expected': want_read, 'got': got1},
                         tag='txt-first-object')
+    # the application edits the dictionaries it was handed (adds an annotation, drops a key): they are its own; objects made
+    # afterwards from the same TXT bytes / the same items read back the input, not the edits
+    for handed in (got2, info.properties):
+        handed[b'__seen_by_app'] = b'1'
+        for k in list(handed)[:1]:
+            handed.pop(k)
+    d_again, _ = _txt_input(case['items'])
+    for what, later in (('the same TXT bytes', ServiceInfo('_http._tcp.local.', 'y._http._tcp.local.', 80, properties=text)),
+                        ('the same items', ServiceInfo('_http._tcp.local.', 'z._http._tcp.local.', 80, properties=d_again))):
+        got3 = {(k.encode('utf-8') if isinstance(k, str) else k): ((v if isinstance(v, bytes) else str(v).encode('utf-8')) or None) if v is not None else None
+                for k, v in later.properties.items()}
+        if got3 != want_read or txt_parse(later.text) != norm:
+            raise Violation(f'a ServiceInfo made from {what} after the application had edited the .properties dictionaries of earlier '
+                            'objects does not read back the input', {'expected': want_read, 'got': got3}, tag='txt-shared-dictionary')
     n = len(norm)
     special = any(v is None or v == b'' for _, v in norm) or any(len(k) + 1 + len(v or b'') >= 254 for k, v in norm)
     classes = ['txt', 'txt-items-%s' % ('0' if n == 0 else '1' if n == 1 else '2+')]
